@@ -105,6 +105,12 @@ type vrun struct {
 	nextK   atomic.Int64
 	lastID  atomic.Uint64
 	gateSig chan *vconn
+
+	// parking an emitter between its pre-check and its lock section ("emit.pre" / "fup.pre" hooks,
+	// which run WITHOUT the sequencer lock): parkArm = 1 parks the next emit.pre, 2 the next fup.pre
+	parkArm     atomic.Int32
+	parkHit     chan struct{}
+	parkRelease chan struct{}
 }
 
 func (r *vrun) tick() uint64 { return r.stamp.Add(1) }
@@ -132,6 +138,8 @@ type runPlan struct {
 	yieldPct   int
 	sleepPct   int
 	postCalls  int
+	forceFup   bool // force a reconnect between a follow-up's pre-check and its lock section
+	forceClose bool // force a complete Close() between an emit's pre-check and its lock section
 }
 
 type connPlan struct {
@@ -332,6 +340,8 @@ func makePlan(rng *vrng, profile string) runPlan {
 	p.yieldPct = []int{0, 5, 20, 50, 90}[rng.n(5)]
 	p.sleepPct = []int{0, 2, 10, 30}[rng.n(4)]
 	p.postCalls = rng.n(3)
+	p.forceFup = rng.pct(55)
+	p.forceClose = rng.pct(60)
 	return p
 }
 
@@ -354,11 +364,21 @@ func payloadFor(k int) []byte {
 
 // one call of the client API, recorded as Call ... Ret in the caller's own log
 func (r *vrun) doCall(lg *[]vrec, em int, rng *vrng, mine []uint64) uint64 {
+	return r.doCallF(lg, em, rng, mine, -1, 0)
+}
+
+// doCallF: forceKind < 0 picks the kind from rng; 0 forces Emit, 1 forces EmitFollowup(forceParent)
+func (r *vrun) doCallF(lg *[]vrec, em int, rng *vrng, mine []uint64, forceKind int, forceParent uint64) uint64 {
 	k := int(r.nextK.Add(1))
 	pl := payloadFor(k)
 	v := vrec{ev: "Call", k: k, em: em, pl: pl, par: InvalidID}
 	kindSel := rng.n(100)
 	boom := r.plan.boomPct > 0 && rng.pct(r.plan.boomPct)
+	if forceKind == 0 {
+		kindSel = 0
+	} else if forceKind == 1 {
+		kindSel = 70
+	}
 	pickParent := func() uint64 {
 		s := rng.n(100)
 		switch {
@@ -410,6 +430,9 @@ func (r *vrun) doCall(lg *[]vrec, em int, rng *vrng, mine []uint64) uint64 {
 		}
 	case kindSel < 85:
 		v.kind, v.disc, v.par = "fup", discFup, pickParent()
+		if forceKind == 1 {
+			v.par = forceParent
+		}
 		v.st = r.tick()
 		*lg = append(*lg, v)
 		id = r.cl.EmitFollowup(discFup, v.par, append([]byte(nil), pl...))
@@ -487,11 +510,12 @@ func waitUntil(cond func() bool, d time.Duration) bool {
 type runResult struct {
 	lines   []string
 	aborted string
+	stop    bool
 }
 
 func oneRun(runIdx int, seed uint64, profile string, forceGmp int) runResult {
 	rng := newVrng(seed)
-	r := &vrun{rng: rng, gateSig: make(chan *vconn, 8)}
+	r := &vrun{rng: rng, gateSig: make(chan *vconn, 8), parkHit: make(chan struct{}, 1)}
 	r.plan = makePlan(rng, profile)
 	if forceGmp > 0 {
 		r.plan.gmp = forceGmp
@@ -514,7 +538,20 @@ func oneRun(runIdx int, seed uint64, profile string, forceGmp int) runResult {
 	niBytes, _ := cfg.NodeInfo.Encode()
 
 	vtraceSink = func(ev string, a, b, c uint64) {
-		// runs inside the sequencer lock (every call site holds it)
+		if ev == "emit.pre" || ev == "fup.pre" {
+			// NOT under the lock: touch nothing but the park control
+			want := int32(1)
+			if ev == "fup.pre" {
+				want = 2
+			}
+			if r.parkArm.CompareAndSwap(want, 0) {
+				rel := r.parkRelease
+				r.parkHit <- struct{}{}
+				<-rel
+			}
+			return
+		}
+		// runs inside the sequencer lock (every other call site holds it)
 		r.lrecs = append(r.lrecs, vrec{st: r.tick(), ev: "L", h: ev, a: a, b: b, c: c,
 			ep: int(cl.seq.currentEpoch), sq: cl.seq.seqCounter,
 			dr: append([]dropRange(nil), cl.drops.ranges...)})
@@ -551,6 +588,7 @@ func oneRun(runIdx int, seed uint64, profile string, forceGmp int) runResult {
 	tk := time.NewTicker(50 * time.Microsecond)
 	defer tk.Stop()
 	stuckMsg := ""
+	stuckObs := false
 	for !finished {
 		select {
 		case gc := <-r.gateSig:
@@ -593,7 +631,18 @@ func oneRun(runIdx int, seed uint64, profile string, forceGmp int) runResult {
 		case <-emDone:
 			finished = true
 		case <-watchdog:
-			stuckMsg = "emitters did not finish within 25s"
+			// slow host or blocked emitters?  blocked = not a single call completes for 5 more seconds
+			n0 := r.ncalls.Load()
+			time.Sleep(5 * time.Second)
+			select {
+			case <-emDone:
+			default:
+				if r.ncalls.Load() != n0 {
+					stuckMsg = "emitters still progressing after 30s (overloaded host)"
+				} else {
+					stuckObs = true
+				}
+			}
 			finished = true
 		case <-tk.C:
 			n := int(r.ncalls.Load())
@@ -609,10 +658,131 @@ func oneRun(runIdx int, seed uint64, profile string, forceGmp int) runResult {
 		}
 	}
 	if stuckMsg != "" {
-		// an emitter that never returns is an observation, not an infrastructure problem: record it
-		r.ctl = append(r.ctl, vrec{st: r.tick(), ev: "Stuck"})
 		return runResult{aborted: stuckMsg}
 	}
+	if stuckObs {
+		// emitters that never return are an observation ("emitters never block"), judged by the
+		// specification.  Their goroutines stay blocked inside the client, so the driver stops after
+		// this run (a late wake-up must not write into another run's log).
+		r.ctl = append(r.ctl, vrec{st: r.tick(), ev: "Stuck"})
+		return runResult{lines: r.renderAll(runIdx, niBytes), stop: true}
+	}
+	// ---- forced windows (quiescent phase: the seeded emitters are done, Close has not been called)
+	closeStarted := func() bool { return cl.closedFlag.Load() }
+	sawStuck := false
+	// pump waits for cond (or d), releasing any gate that fires meanwhile
+	pump := func(cond func() bool, d time.Duration) bool {
+		dl := time.Now().Add(d)
+		for !cond() {
+			select {
+			case gc := <-r.gateSig:
+				r.ctl = append(r.ctl, vrec{st: r.tick(), ev: "Ungate", conn: gc.idx})
+				close(gc.gate)
+			default:
+			}
+			if time.Now().After(dl) {
+				return false
+			}
+			time.Sleep(50 * time.Microsecond)
+		}
+		return true
+	}
+	// parkOne starts `call` on its own goroutine with the park armed; returns (parked, done channel)
+	parkOne := func(arm int32, call func()) (bool, chan struct{}) {
+		r.parkRelease = make(chan struct{})
+		done := make(chan struct{})
+		r.parkArm.Store(arm)
+		go func() { call(); close(done) }()
+		parked := false
+		pump(func() bool {
+			select {
+			case <-r.parkHit:
+				parked = true
+				return true
+			case <-done:
+				return true
+			default:
+				return false
+			}
+		}, 5*time.Second)
+		r.parkArm.Store(0)
+		if !parked {
+			select { // the CAS may have won just before the disarm
+			case <-r.parkHit:
+				parked = true
+			default:
+			}
+		}
+		return parked, done
+	}
+	unpark := func(done chan struct{}) {
+		close(r.parkRelease)
+		stuck := 0
+		select {
+		case <-done:
+		case <-time.After(10 * time.Second):
+			stuck = 1 // the emitter is still inside Emit*: recorded, judged by the specification
+		}
+		if stuck != 0 {
+			sawStuck = true
+		}
+		r.ctl = append(r.ctl, vrec{st: r.tick(), ev: "Unpark", stuck: stuck})
+	}
+	waitDone := func(done chan struct{}) {
+		select {
+		case <-done:
+		case <-time.After(10 * time.Second):
+			sawStuck = true
+			r.ctl = append(r.ctl, vrec{st: r.tick(), ev: "Unpark", stuck: 1})
+		}
+	}
+	if r.plan.forceFup && !closeStarted() && cl.Enabled() && burstEm < len(r.emlogs)-2 {
+		// a follow-up whose parent is valid at its pre-check; the connection is lost and re-established
+		// (epoch bump) before the follow-up reaches its lock section
+		em := burstEm
+		burstEm++
+		frng := newVrng(rng.u64())
+		parent := r.doCallF(&r.emlogs[em], em, frng, nil, 0, 0)
+		if parent != InvalidID {
+			ep0, _ := cl.seq.snapshot()
+			parked, done := parkOne(2, func() { r.doCallF(&r.emlogs[em], em, frng, nil, 1, parent) })
+			if parked {
+				if c := r.curConn.Load(); c != nil {
+					c.peerClose()
+				}
+				pump(func() bool {
+					ep, _ := cl.seq.snapshot()
+					return (ep != ep0 && cl.enabledFlag.Load()) || cl.degradedFlag.Load() || cl.closedFlag.Load()
+				}, 3*time.Second)
+				unpark(done)
+			} else {
+				waitDone(done)
+			}
+		}
+	}
+	if r.plan.forceClose && !closeStarted() && cl.Enabled() && burstEm < len(r.emlogs)-2 {
+		// an Emit that passed its pre-check before Close() and reaches its lock section after Close()
+		// has returned: it must still return (InvalidID)
+		em := burstEm
+		burstEm++
+		frng := newVrng(rng.u64())
+		parked, done := parkOne(1, func() { r.doCallF(&r.emlogs[em], em, frng, nil, 0, 0) })
+		if parked {
+			doClose()
+			pump(func() bool {
+				select {
+				case <-closedCh:
+					return true
+				default:
+					return false
+				}
+			}, 28*time.Second)
+			unpark(done)
+		} else {
+			waitDone(done)
+		}
+	}
+
 	// release any gate still pending (the gated Write may never have been reached by the burst path)
 	drainGates := func() {
 		for {
@@ -647,12 +817,27 @@ func oneRun(runIdx int, seed uint64, profile string, forceGmp int) runResult {
 	for i := 0; i < r.plan.postCalls; i++ {
 		r.doCall(post, len(r.emlogs)-1, rng, nil)
 	}
+	// everything has returned: nobody can hold the sequencer mutex any more
+	free := false
+	for i := 0; i < 200 && !free; i++ {
+		if cl.seq.mu.TryLock() {
+			cl.seq.mu.Unlock()
+			free = true
+		} else {
+			time.Sleep(5 * time.Millisecond)
+		}
+	}
+	r.ctl = append(r.ctl, vrec{st: r.tick(), ev: "LockProbe", ok: free})
 	r.ctl = append(r.ctl, vrec{st: r.tick(), ev: "End"})
-	if time.Since(t0) > 15*time.Second {
+	if !sawStuck && time.Since(t0) > 15*time.Second {
 		return runResult{aborted: "run took longer than 15s (overloaded host)"}
 	}
 
-	// ---- merge by stamp (stamps are unique) and render
+	return runResult{lines: r.renderAll(runIdx, niBytes), stop: sawStuck}
+}
+
+// renderAll merges the per-goroutine logs by stamp (stamps are unique) and renders the run
+func (r *vrun) renderAll(runIdx int, niBytes []byte) []string {
 	var all []vrec
 	all = append(all, r.lrecs...)
 	all = append(all, r.netlog...)
@@ -676,7 +861,7 @@ func oneRun(runIdx int, seed uint64, profile string, forceGmp int) runResult {
 	for _, v := range all {
 		lines = append(lines, render(v, idToK))
 	}
-	return runResult{lines: lines}
+	return lines
 }
 
 func jbytes(b []byte) string {
@@ -734,6 +919,10 @@ func render(v vrec, idToK map[uint64]int) string {
 		return fmt.Sprintf(`{"ev":"Gate","st":%d,"c":%d}`, v.st, v.conn)
 	case "Ungate":
 		return fmt.Sprintf(`{"ev":"Ungate","st":%d,"c":%d,"stuck":%d}`, v.st, v.conn, v.stuck)
+	case "Unpark":
+		return fmt.Sprintf(`{"ev":"Unpark","st":%d,"stuck":%d}`, v.st, v.stuck)
+	case "LockProbe":
+		return fmt.Sprintf(`{"ev":"LockProbe","st":%d,"free":%t}`, v.st, v.ok)
 	case "ConnClose":
 		return fmt.Sprintf(`{"ev":"ConnClose","st":%d,"c":%d,"force":%t}`, v.st, v.conn, v.force)
 	case "ReadErr":
@@ -776,6 +965,10 @@ func TestVerifTelemetryRun(t *testing.T) {
 		for _, ln := range res.lines {
 			w.WriteString(ln)
 			w.WriteByte('\n')
+		}
+		if res.stop {
+			fmt.Fprintf(w, `{"ev":"Stopped","run":%d}`+"\n", i)
+			break
 		}
 	}
 	w.Flush()
